@@ -62,6 +62,15 @@ def _unpartial():
 if HAVE_CH and not NATIVE:
   _unpartial()
 
+def plain(v):
+  """a value that is concrete anyway, as a plain Python object (CrossHair wraps strings built by
+  formatting in lazy proxy types that some gfapy code paths and C functions mishandle)"""
+  if not HAVE_CH or NATIVE:
+    return v
+  from crosshair.core import deep_realize
+  with NoTracing():
+    return deep_realize(v)
+
 def T(quick, thorough):
   """tier-dependent bound"""
   return quick if QUICK else thorough
